@@ -650,7 +650,15 @@ pub fn child18(seed: u64, idx: u64) -> Value {
                         continue;
                     }
                     let p = params.get(t / plen.max(1)).copied().unwrap_or(0).min(31);
-                    q[t] = if rng.chance(1, 40) { rng.usize_below(2000) as u32 } else { rng.usize_below(4) as u32 };
+                    // mostly tiny; sometimes large; sometimes right at the word-size boundaries of a
+                    // Rice code (quotient + 1 stop bit + p remainder bits = 32 / 64 bits, +-2)
+                    q[t] = match rng.usize_below(40) {
+                        0 => rng.usize_below(2000) as u32,
+                        1 | 2 => (64i64 - i64::from(p) + rng.range(-2, 2)).max(0) as u32,
+                        3 => (32i64 - i64::from(p) + rng.range(-2, 2)).max(0) as u32,
+                        4 => *rng.pick(&[31u32, 32, 33, 63, 64, 65, 127, 128]),
+                        _ => rng.usize_below(4) as u32,
+                    };
                     r[t] = if rng.chance(1, 30) { 1u32.checked_shl(u32::from(p)).unwrap_or(0) } else { (rng.next_u64() as u32) & (1u32.checked_shl(u32::from(p)).unwrap_or(0).wrapping_sub(1)) };
                 }
                 desc = format!("Residual::new(order={order}, n={n}, warmup={warm}, params.len={}, q.len={qlen}, r.len={rlen}, warm_zero={respect_warm}, params[..4]={:?})", params.len(), &params[..params.len().min(4)]);
